@@ -249,7 +249,11 @@ fn park(kind: &str, buf: Option<&[u8]>, file: Option<u64>) -> Outcome {
         Mode::Free => return Outcome::Ok,
         Mode::Slow => {
             drop(st);
-            if kind == "sync" {
+            let extra = SLOW_EXTRA_MS.load(std::sync::atomic::Ordering::SeqCst);
+            if extra > 0 {
+                // a worker that needs a long time for each of its remaining steps
+                std::thread::sleep(Duration::from_millis(extra));
+            } else if kind == "sync" {
                 std::thread::sleep(Duration::from_micros(400));
             }
             return Outcome::Ok;
@@ -408,6 +412,9 @@ pub fn release(out: Outcome) -> bool {
         false
     }
 }
+
+/// extra delay (ms) of every intercepted worker call in `Mode::Slow`
+pub static SLOW_EXTRA_MS: std::sync::atomic::AtomicU64 = std::sync::atomic::AtomicU64::new(0);
 
 pub fn set_mode(mode: Mode) {
     let gl = g();
